@@ -14,7 +14,9 @@ RULE = ("Engine 'pca': Hypothesis draws an image stack (N in k+1..40 images of s
         "clusters / low rank / full-rank noise), a mask (none / binary / soft), n_components k in 1..4, n_clusters, a "
         "seed and a dask chunking of the stack along any axis (or a numpy stack); PcaClassifier is compared with an "
         "exact numpy SVD of the centred, masked matrix: singular values, components up to sign (as subspaces where the "
-        "spectral gap is < 1%), projections, independence of chunking, and planted clusters recovered up to renaming. "
+        "spectral gap is < 1%), projections (get_transform of the stack and of row subsets; transform of a subset, a single image "
+        "and a fresh batch against (batch*mask - training mean) @ components.T; predict of training images), independence of "
+        "chunking, and planted clusters recovered up to renaming. "
         "Engine 'loader': loader.classify on tomograms with planted, interleaved particle classes: exactly one new "
         "integer column, row i <-> molecule i, nothing else changed. Non-trivial = > 1 chunk along the sample axis, "
         "> 500 features, or N > k + 10.")
@@ -147,6 +149,38 @@ def judge_pca(d):
                     okc = False
             if not okc or len(set(mapping.values())) != len(mapping):
                 out.append(viol("C18/clusters-not-recovered", f"{tag}: planted classes {planted_labels.tolist()} labelled {lab.tolist()}"))
+    # projections of images other than the whole training stack: a subset, one image, a fresh batch
+    import dask.array as da
+    rng = np.random.Generator(np.random.Philox(d["seed"] + 77))
+    sub = sorted(set(int(i) % d["n"] for i in d.get("sub", [0])))
+    fresh = (X[sub].astype(np.float64) * 0.5 + 0.7 * rng.standard_normal((len(sub),) + shape) + 0.3).astype(np.float32)
+    mk = np.ones(shape) if mask is None else mask.astype(np.float64)
+    for name, batch in (("subset", X[sub]), ("single", X[sub[:1]]), ("fresh", fresh)):
+        with warnings.catch_warnings():
+            warnings.simplefilter("ignore")
+            try:
+                got = np.asarray(clf.transform(da.from_array(batch, chunks=(1,) + shape if d.get("sub_chunked") else batch.shape)), dtype=np.float64)
+            except Exception as e:  # noqa: BLE001
+                import traceback
+                if not any("/acryo/" in f.filename for f in traceback.extract_tb(e.__traceback__)):
+                    raise
+                out.append(viol(f"C18/transform-raises:{type(e).__name__}", f"{tag}: transform({name} batch of {len(batch)}) raised {type(e).__name__}: {str(e)[:150]}"))
+                break
+        want_b = ((batch.astype(np.float64) * mk).reshape(len(batch), -1) - mean) @ comps.T
+        if got.shape != want_b.shape or not np.abs(got - want_b).max() <= 2e-3 * s1:
+            dev = float(np.abs(got - want_b).max()) if got.shape == want_b.shape else float("inf")
+            out.append(viol(f"C18/transform-new-images:{name}", f"{tag}: transform({name} batch, rows {sub}) != (batch*mask - training mean) @ components.T "
+                            f"(max dev {dev:.3g}, sigma1 {s1:.3g})"))
+            break
+    with warnings.catch_warnings():
+        warnings.simplefilter("ignore")
+        tr_sub = np.asarray(clf.get_transform(labels=list(sub)), dtype=np.float64)
+        if tr_sub.shape != (len(sub), k) or not np.abs(tr_sub - tr[sub]).max() <= 1e-4 * s1:
+            out.append(viol("C18/get-transform-subset", f"{tag}: get_transform(labels={sub}) is not rows {sub} of get_transform()"))
+        if planted_labels is not None and clf.labels is not None and d["n_clusters"] <= k + 1 and not out:
+            pred = np.asarray(clf.predict(da.from_array(X[sub], chunks=X[sub].shape)))
+            if pred.shape != (len(sub),) or not np.array_equal(pred, np.asarray(clf.labels)[sub]):
+                out.append(viol("C18/predict-training-images", f"{tag}: predict(images {sub}) = {pred.tolist()} but their labels are {np.asarray(clf.labels)[sub].tolist()}"))
     # independence of chunking
     if chunks is not None:
         with warnings.catch_warnings():
@@ -232,7 +266,8 @@ def pca_cases(draw):
     if draw(st.sampled_from([True, True, False])):
         chunks = draw(gen.chunkings([n] + shape, min_chunk=1))
     return {"k": k, "shape": shape, "n": n, "data": data, "n_clusters": nclu, "seed": draw(gen.seeds), "kseed": draw(st.integers(0, 99)),
-            "mask": draw(st.sampled_from(["none", "binary", "soft"])), "chunks": chunks}
+            "mask": draw(st.sampled_from(["none", "binary", "soft"])), "chunks": chunks,
+            "sub": draw(st.lists(st.integers(0, 39), min_size=1, max_size=6)), "sub_chunked": draw(st.booleans())}
 
 
 @st.composite
